@@ -51,7 +51,14 @@ impl Expression for Return {
         let value = self.expr.type_info(state);
         TypeInfo::new(
             state,
-            TypeDef::never().with_returns(value.result.kind().clone()),
+            // the operand may itself contain a `return` (e.g. `return { if .a { return 1 }; 2 }`)
+            TypeDef::never().with_returns(
+                value
+                    .result
+                    .kind()
+                    .clone()
+                    .union(value.result.returns().clone()),
+            ),
         )
     }
 }
